@@ -965,12 +965,12 @@ class Message(ABC):
         sub-messages when asked to include default values and must not leave that
         (for recursive message types unbounded) chain of defaults behind.
         """
-        value = self.__raw_get(name)
-        if value is not PLACEHOLDER:
-            return value
         group = self._betterproto.oneof_group_by_field.get(name)
         if group is not None and self._group_current[group] != name:
             return getattr(self, name)  # raises the usual AttributeError
+        value = self.__raw_get(name)
+        if value is not PLACEHOLDER:
+            return value
         return self._get_field_default(name)
 
     def __setattr__(self, attr: str, value: Any) -> None:
